@@ -14,7 +14,8 @@
     [Validator] object whose Address and VotingPower are never mutated (only priorities
     are), and the harness observes only those two fields of [GetProposer()], so the
     proposer is stored by value as (address, power); this also makes [Copy] (which shares
-    the proposer pointer with the original) a plain value copy.  No proofs in this file. *)
+    the proposer pointer with the original; its nil-receiver check added by ae9277c is outside
+    the histories) a plain value copy.  No proofs in this file. *)
 From Coq Require Import List ZArith NArith Bool Lia.
 From Kardia Require Import Base.Int64 Base.ListX Generated.C12Facts.
 Import ListNotations.
